@@ -46,6 +46,7 @@ pub fn main(args: &[String]) -> i32 {
 		let mut verdict: Result<(), String> = Ok(());
 		let mut done = 0u64;
 		let mut max_depth = 0u32;
+		let mut batched = 0u64;
 		let res = std::panic::catch_unwind(std::panic::AssertUnwindSafe(|| {
 			let db = Db::open_or_create(&opts).unwrap();
 			let mut next = 0usize;
@@ -57,33 +58,66 @@ pub fn main(args: &[String]) -> i32 {
 					1 => rng.chance(1, 2),
 					_ => rng.chance(4, 5),
 				};
-				if want_del && nlive > 0 {
-					let ks: Vec<usize> = (0..nkeys).filter(|k| live[*k]).collect();
-					let k = match rng.below(4) {
-						0 => ks[0],
-						1 => ks[ks.len() - 1],
-						_ => *rng.pick(&ks),
-					};
-					db.commit_changes(vec![(0u8, Operation::Dereference(keys[k].clone()))]).unwrap();
-					live[k] = false;
-					toks.extend_from_slice(&[2, k as u64 + 1]);
-				} else {
-					let k = match order {
-						0 if next < nkeys => {
-							next += 1;
-							next - 1
-						},
-						1 if next < nkeys => {
-							next += 1;
-							nkeys - next
-						},
-						_ => rng.below(nkeys as u64) as usize,
-					};
-					let vl = rng.range(0, 40) as usize;
-					db.commit_changes(vec![(0u8, Operation::Set(keys[k].clone(), rng.bytes(vl)))]).unwrap();
-					live[k] = true;
-					toks.extend_from_slice(&[1, k as u64 + 1]);
+				// a third of the transactions carry several changes (2-6 different keys, applied in key order by one
+				// descent of Node::change); the model applies them one after the other
+				let batch = if rng.chance(1, 3) { rng.range(2, 6) as usize } else { 1 };
+				let mut chosen: Vec<(usize, bool)> = Vec::new();
+				for _ in 0..batch {
+					let nlive_now = live.iter().filter(|x| **x).count();
+					let del = if chosen.is_empty() { want_del } else { rng.chance(1, 2) };
+					if del && nlive_now > 0 {
+						let ks: Vec<usize> = (0..nkeys).filter(|k| live[*k] && !chosen.iter().any(|c| c.0 == *k)).collect();
+						if ks.is_empty() {
+							continue
+						}
+						let k = match rng.below(4) {
+							0 => ks[0],
+							1 => ks[ks.len() - 1],
+							_ => *rng.pick(&ks),
+						};
+						chosen.push((k, true));
+					} else {
+						let k = match order {
+							0 if next < nkeys => {
+								next += 1;
+								next - 1
+							},
+							1 if next < nkeys => {
+								next += 1;
+								nkeys - next
+							},
+							_ => rng.below(nkeys as u64) as usize,
+						};
+						if !chosen.iter().any(|c| c.0 == k) {
+							chosen.push((k, false));
+						}
+					}
 				}
+				if chosen.is_empty() {
+					continue
+				}
+				chosen.sort();
+				let mut tx = Vec::new();
+				for (n, (k, del)) in chosen.iter().enumerate() {
+					let lastop = n + 1 == chosen.len();
+					if *del {
+						tx.push((0u8, Operation::Dereference(keys[*k].clone())));
+						live[*k] = false;
+						toks.extend_from_slice(&[if lastop { 2 } else { 4 }, *k as u64 + 1]);
+					} else {
+						let vl = rng.range(0, 40) as usize;
+						tx.push((0u8, Operation::Set(keys[*k].clone(), rng.bytes(vl))));
+						live[*k] = true;
+						toks.extend_from_slice(&[if lastop { 1 } else { 3 }, *k as u64 + 1]);
+					}
+				}
+				// the transaction is given in a shuffled order: the library sorts the changes of a btree column
+				rng.shuffle(&mut tx);
+				db.commit_changes(tx).unwrap();
+				if chosen.len() > 1 {
+					batched += 1;
+				}
+				done += chosen.len() as u64 - 1;
 				for _ in 0..2 {
 					db.process_commits().unwrap();
 				}
@@ -130,6 +164,7 @@ pub fn main(args: &[String]) -> i32 {
 			Err(e) => oracle.push_str(&format!("FAIL {e}\n")),
 		}
 		*dist.entry(format!("mutation-histories-max-depth-{max_depth}")).or_insert(0) += 1;
+		*dist.entry("transactions-with-several-changes".into()).or_insert(0) += batched;
 		if max_depth >= 1 {
 			nontrivial += 1;
 		}
